@@ -132,9 +132,9 @@ impl Read for Abs {
         let n = if self.all_or_nothing {
             if avail >= buf.len() as u64 { buf.len() } else { 0 }
         } else if self.short_reads {
-            // a source whose FIRST read hands out at most 7 bytes (fewer than a tag, fewer than
-            // asked), later reads everything asked
-            if self.calls == 1 {
+            // a source whose FIRST and THIRD reads hand out at most 7 bytes (fewer than a tag,
+            // fewer than asked), the other reads everything asked
+            if self.calls == 1 || self.calls == 3 {
                 core::cmp::min(core::cmp::min(avail, buf.len() as u64), 7) as usize
             } else {
                 core::cmp::min(avail, buf.len() as u64) as usize
@@ -208,6 +208,11 @@ impl<'a> crate::layers::traits::LayerFailSafeReader<'a, AbsSrc> for AbsSrc {
     }
 }
 
+/// ghost switch (a static, not a field of `Rec`: an extra field changed the struct layout and made
+/// every writer harness explode): when non-zero the FIRST write a `Rec` sees accepts only this
+/// many bytes, later writes everything
+pub static mut REC_FIRST_ACCEPT: usize = 0;
+
 /// Recording sink: counts bytes, keeps the first `KEEP` of them, counts flushes; optionally
 /// accepts only a nondeterministic part (>= 1 byte) of each write.
 pub const KEEP: usize = 44;
@@ -242,6 +247,8 @@ impl Write for Rec {
             let k: usize = kani::any();
             kani::assume(k <= buf.len() && (k > 0 || buf.is_empty()));
             k
+        } else if unsafe { REC_FIRST_ACCEPT } > 0 && self.writes == 0 {
+            core::cmp::min(unsafe { REC_FIRST_ACCEPT }, buf.len())
         } else {
             buf.len()
         };
